@@ -167,13 +167,18 @@ func (o *optimizer) optimizeDelayCall() {
 	)
 }
 
-// whether evaluating the exprs has no effect: literals, func literals, names,
-// and calls of the no effect combinators over such exprs.
+// whether evaluating the exprs has no effect and does not depend on when it happens:
+// literals, func literals, names other than variables, and calls of the no effect combinators over such exprs.
 // e.g., hand-written Delay(func() Seq[T] { return Combine(mk(1), mk(2)) }) must keep its Delay
 func valuesOnly(ctx astmatcher.Ctx, exprs []ast.Expr) bool {
 	for _, expr := range exprs {
 		switch e := expr.(type) {
-		case *ast.BasicLit, *ast.FuncLit, *ast.Ident:
+		case *ast.BasicLit, *ast.FuncLit:
+		case *ast.Ident:
+			// a variable is read where the Delay call stands, no longer when the thunk runs
+			if _, isVar := ctx.ObjectOf(e).(*types.Var); isVar {
+				return false
+			}
 		case *ast.ParenExpr:
 			if !valuesOnly(ctx, []ast.Expr{e.X}) {
 				return false
